@@ -1,7 +1,7 @@
 #!/bin/bash
 # run every implemented check (quick by default) and print one line each
 tier=${1:-quick}
-cd /verif
+cd "$(dirname "$0")/.."
 for f in cobastatic/rules/c[0-9][0-9].py; do
   p=$(basename $f .py | tr a-z A-Z)
   s=$(date +%s.%N)
